@@ -278,8 +278,10 @@ func runC06(c *core.Ctx, r *core.Result) {
 					oc := outcomeClass(out)
 					r.Outcome(kind.name + ":" + oc)
 					if !out.Reached {
-						// liveness is C08's property: inconclusive here
-						r.Count("inconclusive-"+oc, 1)
+						// the chain of first occurrences was applied (ref exists), the chain with the copies cannot be: the copies changed
+						// what the ledger becomes - by stopping it
+						r.Violate(core.Violation{Key: key, Signature: fmt.Sprintf("C06:%s:%s:chain-with-copies-cannot-be-applied:%s", era.Name, kind.name, errClass(out.LastErr+out.DiedMsg)),
+							Desc: "the chain with duplicate copies of an entry cannot be applied although the chain with the first occurrence only can: " + out.String()})
 						c.Logf("%s: %s", key, out)
 						continue
 					}
